@@ -208,4 +208,69 @@ theorem newCellsSeq_some (kw : List String) (p : Path) :
       | zero => exact hok
       | succ k => exact h2 k (Nat.lt_of_succ_lt_succ hk)
 
+/-! ## what the loop leaves behind when it stops half-way -/
+
+theorem mem_cells_none_of_canAdd (st : St) (p : Path) (n : String) (k : Kind) (hne : p ≠ [])
+    (h : st.canAdd p n k = true) : st.mem .cells p n = none := by
+  cases hm : st.mem .cells p n with
+  | none => rfl
+  | some m =>
+    unfold St.canAdd St.kindOf at h
+    rw [hm] at h
+    simp [hne] at h
+
+/-- a cells of `p` stays one through the rest of the loop, wherever the loop stops -/
+theorem mem_loop_keeps (kw : List String) (p : Path) (n : String) :
+    ∀ (es : List (String × Nat)) (s : St), (s.mem .cells p n).isSome = true →
+      ((s.newCellsLoop kw p es).1.mem .cells p n).isSome = true := by
+  intro es
+  induction es with
+  | nil => intro s h; exact h
+  | cons e es ih =>
+    intro s h
+    rw [newCellsLoop_cons]
+    cases hok : s.cellsOk kw p e.1 with
+    | false => exact h
+    | true =>
+      simp only [if_true]
+      apply ih
+      by_cases hn : n = e.1
+      · have hp : s.has p = true := by
+          unfold St.cellsOk at hok
+          simp only [Bool.and_eq_true] at hok
+          exact hok.1.1
+        rw [hn, mem_putCells_self s p e.1 e.2 ((has_iff_mem_ids s p).mp hp)]
+        rfl
+      · rw [mem_putCells_ne s p e.1 e.2 .cells p n hn]
+        exact h
+
+/-- **the defect of the loop**: when the first creation is accepted and a later one refused, the state the
+loop leaves is not the state the call was given (the first cells is there) -/
+theorem loop_refused_differs (kw : List String) (st : St) (p : Path) (e : String × Nat)
+    (es : List (String × Nat)) (hroot : st.has [] = false) (hok : st.cellsOk kw p e.1 = true) :
+    ((st.newCellsLoop kw p (e :: es)).1.mem .cells p e.1).isSome = true ∧ st.mem .cells p e.1 = none ∧
+    (st.newCellsLoop kw p (e :: es)).1 ≠ st := by
+  have hp : st.has p = true ∧ st.canAdd p e.1 .cells = true := by
+    unfold St.cellsOk at hok
+    simp only [Bool.and_eq_true] at hok
+    exact ⟨hok.1.1, hok.2⟩
+  have hne : p ≠ [] := by intro h; rw [h, hroot] at hp; cases hp.1
+  have h1 : ((st.newCellsLoop kw p (e :: es)).1.mem .cells p e.1).isSome = true := by
+    rw [newCellsLoop_cons, hok]
+    simp only [if_true]
+    apply mem_loop_keeps
+    rw [mem_putCells_self st p e.1 e.2 ((has_iff_mem_ids st p).mp hp.1)]
+    rfl
+  have h2 := mem_cells_none_of_canAdd st p e.1 .cells hne hp.2
+  refine ⟨h1, h2, ?_⟩
+  intro heq
+  rw [heq, h2] at h1
+  cases h1
+
+/-- no reachable state has a space of empty id -/
+theorem run_no_root (kw : List String) (ops : List Op) : (St.run kw {} ops).has [] = false := by
+  cases h : (St.run kw {} ops).has [] with
+  | false => rfl
+  | true => exact absurd rfl ((run_inv kw ops).wf.tree [] ((has_iff_mem_ids _ _).mp h)).1
+
 end MxModel.SM
